@@ -231,14 +231,16 @@ class CircuitCompositeOperation(ICircuitCompositeOperation):
         if self.empty_composite:
             return total_duration
         # Calculate relative start time of internal operations
+        # NOTE: Earliest start / latest end are not necessarily found at the first (depth=1) / leaf nodes.
+        # (e.g. a long operation with a shorter JOINED_START successor, or JOINED_END with a longer duration).
         relative_start_time: float = +np.inf
-        for start_node in self._circuit_graph.get_nodes_at(depth=1):
+        for start_node in self._circuit_graph.get_node_iterator():
             start_time: float = start_node.operation.start_time
             if start_time < relative_start_time:
                 relative_start_time = start_time
         # Calculate internal duration of operation branch
-        for leaf_node in self._circuit_graph.leaf_nodes:
-            delta_time = leaf_node.operation.end_time - relative_start_time
+        for end_node in self._circuit_graph.get_node_iterator():
+            delta_time = end_node.operation.end_time - relative_start_time
             if delta_time > total_duration:
                 total_duration = delta_time
         return total_duration
